@@ -6,10 +6,12 @@ import (
 	"fmt"
 	"math"
 	"math/rand"
+	"sort"
 	"testing"
 
 	"github.com/prometheus/prometheus/model/histogram"
 	"github.com/prometheus/prometheus/model/labels"
+	"github.com/prometheus/prometheus/promql/parser"
 	"github.com/prometheus/prometheus/storage"
 	"github.com/prometheus/prometheus/tsdb/chunkenc"
 	"github.com/prometheus/prometheus/tsdb/chunks"
@@ -138,7 +140,20 @@ func vfFmtOut(o []vfOut) [][2]float64 {
 	return out
 }
 
-var vfNonCounterFuncs = []string{"", "sum_over_time", "max_over_time", "avg_over_time", "delta", "deriv", "count_over_time", "last_over_time"}
+// vfNonCounterFuncs: every PromQL function name known to the parser except the four counter functions
+// named by the property, plus the empty hint and a few names that are not functions at all.
+var vfNonCounterFuncs = func() []string {
+	out := []string{"", "", "", "sum_over_time", "max_over_time", "unknown_func", "RATE", "rate ", "xrate", "count"}
+	for name := range parser.Functions {
+		switch name {
+		case "rate", "irate", "increase", "resets":
+			continue
+		}
+		out = append(out, name)
+	}
+	sort.Strings(out)
+	return out
+}()
 var vfCounterFuncs = []string{"rate", "irate", "increase", "resets"}
 
 // vfGenReplicas generates 1..4 replicas of one logical series.
